@@ -698,6 +698,8 @@ def compare(req, exp, ans):
         return None if cv == want else f"C value of the emitted text {want}, model cEval {cv}"
     if kind in ("acc", "wsf") and ans == "err float":
         return None
+    if kind == "acc" and exp == "err AssertionError" and ans == "none":
+        return None   # the assert of get_idx_offset (length mismatch) surfaces as AssertionError
     if kind == "mem":
         ans, exp = " ".join(ans.split()), " ".join(exp.split())
     return None if ans == exp else f"real `{exp[:300]}` model `{ans[:300]}`"
